@@ -22,8 +22,11 @@ Ops ==
 
 \* haystack alphabet: 'a' 'b' '=' and the euro sign E2 82 AC, FF
 HayAlpha == {97, 98, 61, 226, 130, 255}
-Needles == {<<97>>, <<61>>, <<97, 97>>, <<97, 98>>, <<98, 97>>, <<97, 98, 97>>, <<45, 45>>,
-            <<226, 130, 172>>, <<195, 169>>, <<97, 61>>}
+\* every needle of length 1..3 over {a, b} (all self-overlap patterns: aa, aab, aba, ...), two of
+\* length 4, and the needles clap itself uses ("--", "=") plus multi-byte ones
+Needles == UNION {[1..k -> {97, 98}] : k \in 1..3}
+           \cup {<<97, 97, 97, 98>>, <<97, 98, 97, 98>>, <<61>>, <<45, 45>>, <<61, 61, 97>>,
+                 <<226, 130, 172>>, <<195, 169>>, <<97, 61>>}
 
 Init ==
   IF Mode = "cursor"
